@@ -128,6 +128,8 @@ type scriptDialer struct {
 	cfgs        []transport.DialConfig
 	noHandshake int // the next n redials do not get the readiness frame
 	times       []time.Duration
+	// redial attempts that failed in a row (refused dial or no readiness frame), and the longest such row
+	consecFail, maxConsecFail int
 }
 
 func (d *scriptDialer) Dial(c transport.DialConfig) (transport.Transport, error) {
@@ -140,6 +142,7 @@ func (d *scriptDialer) Dial(c transport.DialConfig) (transport.Transport, error)
 	if d.dialFail > 0 {
 		d.dialFail--
 		s.stats["fault.dial-fail"]++
+		d.noteAttempt(false)
 		return nil, errDialRefused
 	}
 	m := &member{s: s, id: len(d.members), cfg: c, rx: make(chan []byte, 4096), fail: make(chan struct{}), closed: make(chan struct{})}
@@ -151,11 +154,24 @@ func (d *scriptDialer) Dial(c transport.DialConfig) (transport.Transport, error)
 			m.failed = true
 			m.readErr = errors.New("dsim: handshake read failed")
 			close(m.fail)
+			d.noteAttempt(false)
 		} else {
 			m.rx <- []byte("ready") // the peer's readiness frame, consumed by reconnect()
+			d.noteAttempt(true)
 		}
 	}
 	return m, nil
+}
+
+func (d *scriptDialer) noteAttempt(ok bool) {
+	if ok {
+		d.consecFail = 0
+		return
+	}
+	d.consecFail++
+	if d.consecFail > d.maxConsecFail {
+		d.maxConsecFail = d.consecFail
+	}
 }
 
 func (d *scriptDialer) current() *member {
@@ -339,6 +355,32 @@ func runC18(s *Sim) {
 		s.Violate("C18.blocks", op.Name+map[bool]string{true: ":after-close", false: ""}[closed]+map[bool]string{true: ":budget-exhausted", false: ""}[!alive && !closed],
 			"%s(%s) still blocked %v after the last fault (max attempts %d, interval %v, transport alive=%v, closed=%v, dials=%d)", op.Name, op.Args, 2*bound, maxAttempts, interval, alive, closed, d.dials)
 	}
+	// the redial budget is per outage: as long as fewer attempts than the budget failed in a row, the
+	// transport never gives up, however many outages there were
+	s.mu.Lock()
+	worstRow := d.maxConsecFail
+	s.mu.Unlock()
+	if !exhaust && !closed && worstRow < maxAttempts {
+		s.Stat("c18.budget-never-exhausted")
+		var op *Op
+		if s.Idle(0) {
+			op = &Op{Name: "Write", Args: "still-alive", Run: func(ctx context.Context) (any, error) { return nil, tr.Write([]byte("w|still-alive")) }}
+			s.Start(0, op)
+			s.Wait()
+			s.Advance(bound)
+		}
+		switch {
+		case d.current() == nil:
+			s.Violate("C18.gave-up-within-budget", "no-connection", "the transport has no working connection after the last fault although at most %d redial attempts failed in a row (budget %d per outage, %d dials in total)", worstRow, maxAttempts, d.dials)
+		case op != nil && op.harvested && op.Err != nil:
+			s.Violate("C18.gave-up-within-budget", "write-fails", "Write fails with %q after the last fault although at most %d redial attempts failed in a row (budget %d per outage, %d dials in total)", errString(op.Err), worstRow, maxAttempts, d.dials)
+		}
+		if op != nil && op.harvested && op.Err == nil {
+			rec := &rwRec{Payload: "w|still-alive", Task: 0, Op: op}
+			writes = append(writes, rec)
+		}
+	}
+	alive = d.current() != nil && !closed
 	// later calls after give-up / Close fail instead of blocking
 	if !alive {
 		for _, name := range []string{"Write", "Read"} {
